@@ -887,18 +887,29 @@ func (a *Agent) gatherCandidatesSrflx(ctx context.Context, urls []*stun.URI, net
 		// we end it early to prevent close delay.
 		cancelCtx, cancelFunc := context.WithCancel(ctx)
 		defer cancelFunc()
+		// Until a candidate owns it, the socket is closed exactly once by whichever
+		// of the watcher and the error paths below gets there first.
+		var closeConnOnce sync.Once
+		closeConn := func() {
+			closeConnOnce.Do(func() {
+				if closeErr := conn.Close(); closeErr != nil {
+					a.log.Warnf("Failed to close connection: %v", closeErr)
+				}
+			})
+		}
 		go func() {
 			select {
 			case <-cancelCtx.Done():
 				return
 			case <-a.loop.Done():
-				_ = conn.Close()
+				closeConn()
 			}
 		}()
 
 		xorAddr, err := stunx.GetXORMappedAddr(conn, serverAddr, a.stunGatherTimeout)
 		if err != nil {
-			closeConnAndLog(conn, a.log, "failed to get server reflexive address %s %s: %v", network, url, err)
+			a.log.Warnf("failed to get server reflexive address %s %s: %v", network, url, err)
+			closeConn()
 
 			return
 		}
@@ -917,7 +928,8 @@ func (a *Agent) gatherCandidatesSrflx(ctx context.Context, urls []*stun.URI, net
 		}
 		c, err := NewCandidateServerReflexive(&srflxConfig)
 		if err != nil {
-			closeConnAndLog(conn, a.log, "failed to create server reflexive candidate: %s %s %d: %v", network, ip, port, err)
+			a.log.Warnf("failed to create server reflexive candidate: %s %s %d: %v", network, ip, port, err)
+			closeConn()
 
 			return
 		}
@@ -927,6 +939,7 @@ func (a *Agent) gatherCandidatesSrflx(ctx context.Context, urls []*stun.URI, net
 				a.log.Warnf("Failed to close candidate: %v", closeErr)
 			}
 			a.log.Warnf("Failed to append to localCandidates and run onCandidateHdlr: %v", err)
+			closeConn()
 		}
 	}
 
